@@ -104,6 +104,7 @@ Step(e) ==
                         \o (IF live /\ wi /\ rk # ComputeRanks(gr, e.nodes, ranks) THEN <<<<l, "ComputeRefines">>>> ELSE <<>>)
                         \o drift
             /\ stats' = [stats EXCEPT !.widths = @ + 1, !.nontrivial = @ + (IF rk # ranks THEN 1 ELSE 0)]
+    \* an event with rerun = TRUE is the SECOND run() of the same annealer object (after set_iterations): same starting tree, same predicates
     [] e.k = "anneal" ->
          IF e.res # "ok" THEN
             /\ viol' = Append(viol, <<l, IF e.res = "panic" THEN "NoPanic" ELSE "NoHang">>) /\ live' = FALSE
@@ -121,7 +122,7 @@ Step(e) ==
                                                 /\ e.init_width = TrueWidth(gr, e.init_nodes), "WidthOK")
                            ELSE <<>>)
                        \o viol
-            /\ drift' = (IF live /\ e.params.ctor # "set_init_decomp" /\ e.init_nodes # nodes THEN <<<<l, "AnnealStartsFromTree">>>> ELSE <<>>)
+            /\ drift' = (IF live /\ e.params.ctor # "set_init_decomp" /\ ~(Has(e, "rerun") /\ e.rerun) /\ e.init_nodes # nodes THEN <<<<l, "AnnealStartsFromTree">>>> ELSE <<>>)
                         \o (IF e.valid # ValidTree(gr, e.nodes) THEN <<<<l, "IsValidForGraph">>>> ELSE <<>>)
                         \o (IF Has(e, "get") /\ ~(e.init_readback_same /\ e.get = [f \in DOMAIN e.get |-> e.params[f]])
                             THEN <<<<l, "ParamReadback">>>> ELSE <<>>)
